@@ -473,6 +473,7 @@ class C06(BaseCheck):
       ev_mark0 = len(env.events)
       truth0 = set(ss.truth)
       size_at_phase_start = sizes()[0]     # (may exceed max_size already: replacements of members that were down)
+      log_mark_phase = len(env.logs)
       for _i in range(K + 3):
         if len(live) >= K:
           break
@@ -518,7 +519,10 @@ class C06(BaseCheck):
         # judged with the reference value (the drift itself is only counted).
         stats['ema_crosscheck_mismatch'] += 1
       if healthy and jit and mx < 2 ** 31 and not env.c06_jitter_depth and \
-          not any(c_.opens_in_flight for c_ in w.channels):
+          not any(c_.opens_in_flight for c_ in w.channels) and \
+          not any('Marking node' in l_[2] or 'Exception caught opening channel' in l_[2] for l_ in env.logs[log_mark_phase:]):
+        # (a member that failed before the phase is only found - marked down and replaced, beyond max_size if need
+        # be - when a dispatch of the phase reaches it: growth of that kind is not the rounds' doing either)
         # jitter rounds took place in this steady phase, none is in progress now, every active member is
         # healthy and nothing is connecting: a round swaps one member for another, so whatever the load the
         # active set has not grown beyond max_size in this phase (that would be load-driven growth by another
